@@ -132,12 +132,8 @@ def avoid_known(dec, path, fields):
                     f["dst"] = "4096"
             except ValueError:
                 pass
-    name = os.path.basename(path)
-    if dec == "xz" and "xz-filter" in name and "delta" not in name:
-        # known: xz-bcj-filter-resumed-after-suspension (any resumption inside a BCJ-filtered block)
-        f["src"] = "*"
-        f["dst"] = "*"
-        f.pop("dstmode", None)
+    # (BCJ-filtered xz blocks were driven one-shot only until the repair of io_forget_history, 9a5020d: they are
+    # split like everything else now)
     return f
 
 
